@@ -121,10 +121,13 @@ func PlayJournal(j []byte, pageSize uint32) JournalPlayback {
 			if ck != JournalChecksum(page, nonce) {
 				return out
 			}
+			// (records are written to the database in the order they are read: of two
+			// records for one page - which only a stale later segment of a persistent
+			// journal can supply - the later one is what the page ends up with)
 			if _, seen := out.Pages[pgno]; !seen {
-				out.Pages[pgno] = append([]byte(nil), page...)
 				out.Order = append(out.Order, pgno)
 			}
+			out.Pages[pgno] = append([]byte(nil), page...)
 		}
 		first = false
 	}
